@@ -57,7 +57,9 @@ class HasIO(Module):
             opts = {'uri': self.uri, 'description': f'communication device for {name}',
                     'visibility': 'expert'}
             ioname = self.ioDict.get(self.uri)
-            if not ioname:
+            if not ioname or ioname not in srv.secnode.modules:
+                # ioDict is shared by all nodes created in this process (e.g. after
+                # a restart): an entry is valid only, if the io module exists in this node
                 ioname = opts.get('io') or f'{name}_io'
                 io = self.ioClass(ioname, srv.log.getChild(ioname), opts, srv)  # pylint: disable=not-callable
                 io.callingModule = []
